@@ -17,6 +17,30 @@ HEADER = ("From Coq Require Import String List Bool Arith.\nImport ListNotations
 CLI_PKG = "github.com/drshriveer/gtools/gogenproto/cmd/gogenproto"
 
 
+EXPORT_VERIF = """//go:build verif
+
+package gen
+
+// ProtoFileHasGoPackageForVerif exposes protoFileHasGoPackage to the verification harness
+// (file added to the scratch copy of the tree only).
+func ProtoFileHasGoPackageForVerif(path string) (bool, error) { return protoFileHasGoPackage(path) }
+"""
+
+
+def scan_stream(ctx, tools, quick):
+    """the byte scanner alone: protoFileHasGoPackage on files of generated contents, judged in the kernel against
+    ProtoLex.scan_go_package (model) and declares_go_package (specification).  Returns (bad, n, declares, err):
+    bad = list of (json case, code)"""
+    t, j, err = run_harness(ctx, tools, "scan", ["-mode", "scan", "-flagsets", 2 if quick else 3,
+                                                 "-n", 1500 if quick else 30000])
+    if err:
+        return [], 0, 0, err
+    bad, nt, err = ctx.judge_cases(HEADER, "scase", "scan_judge", t, shard=1500, nontrivial="scan_declares", tag="scan")
+    if err:
+        return [], len(t), 0, err
+    return [(j[i], c) for i, c in bad], len(t), nt, None
+
+
 def build_tools(ctx):
     """harness + stub + the real gogenproto CLI, all compiled against the scratch copy (the three
     `go build`s run side by side)"""
@@ -55,8 +79,9 @@ def run_harness(ctx, tools, tag, args, timeout=30000, seed=None):
     t = open(prefix + ".cases").read().splitlines()
     j = [json.loads(l) for l in open(prefix + ".jsonl").read().splitlines()]
     for x in j:
-        x["spec"]["includes"] = x["spec"].get("includes") or []
-        x["spec"]["tree"] = x["spec"].get("tree") or []
+        if "spec" in x:
+            x["spec"]["includes"] = x["spec"].get("includes") or []
+            x["spec"]["tree"] = x["spec"].get("tree") or []
     if len(t) != len(j):
         return [], [], "harness %s wrote %d terms but %d json cases" % (tag, len(t), len(j))
     return t, j, None
